@@ -14,7 +14,7 @@ import (
 // C18 — determinism and independence of earlier / concurrent runs.
 
 func init() {
-	register("C18", "Decides structural necessary conditions of 'an evaluation does not depend on what was parsed or evaluated before, and concurrent evaluations do not race': (G1, engine E1) no function reachable from the evaluation entry points (expression parsing, every operator handler, codec and printer methods, evaluator constructors and methods) stores to a package-level variable or through a pointer/slice/map loaded from one — with no goroutines and no sync primitives in the module except the sync.Once start-up initialiser, that is also the sufficient condition for 'separate evaluators do not race on module memory'; (G2) no stateful Decoder/Encoder instance is created in a package-level initialiser or stored in the lexer rule table (shared by every expression); (G3 = C10-S3) the parsed expression tree carries no state between evaluations; (G4) time.Now / math/rand / os.Getenv-family calls occur only in the operators the property excludes (now, shuffle, env, envsubst, strenv) and in cmd start-up; (G5) no range over a Go map reaches output order. Does NOT decide races inside third-party packages nor byte determinism of the emitters.", runC18)
+	register("C18", "Decides structural necessary conditions of 'an evaluation does not depend on what was parsed or evaluated before, and concurrent evaluations do not race': (G1, engine E1) no function reachable from the evaluation entry points (expression parsing, every operator handler, codec and printer methods, evaluator constructors and methods) stores to a package-level variable or through a pointer/slice/map loaded from one — with no goroutines and no sync primitives in the module except the sync.Once start-up initialiser, that is also the sufficient condition for 'separate evaluators do not race on module memory'; (G2) no stateful Decoder/Encoder instance is created in a package-level initialiser or stored in the lexer rule table (shared by every expression); (G3 = C10-S3) the parsed expression tree carries no state between evaluations; (G4) time.Now / math/rand / os.Getenv-family calls occur only in the operators the property excludes (now, shuffle, env, envsubst, strenv) and in cmd start-up; (G5) no range over a Go map reaches output order. (G9) a field an encoder receives anew for every result is stored on every path of the receiving method. Does NOT decide races inside third-party packages nor byte determinism of the emitters.", runC18)
 }
 
 func evaluationEntryPoints(c *Ctx) []*ssa.Function {
